@@ -646,6 +646,7 @@ def targeted_blocks(rng, h, w, per_k=1, ks=None):
 
 def correspond_hard(ctx, m):
     rng = ctx.rng
+    ctx._c18_shape_states = []
 
     # --- (class 5) _is_connected on ALL cell subsets of 3x4 and 4x4, every excluded cell; sampled 5x5
     reqs, cases = [], []
@@ -665,8 +666,8 @@ def correspond_hard(ctx, m):
         if ctx.thorough or (conn and len(blk) >= 8 and SH.has_hole(4, 4, blk)):
             exs = [None] + blk                                   # quick: every cell of every block with a hole
         elif conn:
-            exs = [None] + rng.sample(blk, min(len(blk), 3))
-        elif mask % 3 == ctx.seed % 3:
+            exs = [None] + rng.sample(blk, min(len(blk), 2))
+        elif mask % 4 == ctx.seed % 4:
             exs = [rng.choice([None] + blk)]
         else:
             exs = []
@@ -754,10 +755,11 @@ def correspond_hard(ctx, m):
             for u in rng.sample(ups, min(3, len(ups))):
                 areqs.append("APPLY %s %s" % (enc_blocks(blocks), enc_update(u)))
                 acases.append((blocks, u))
-            ctx._c18_states.append((cfg, blocks, ups))
+            ctx._c18_shape_states.append((cfg, blocks, ups))
 
     # --- (class 3) copy_with_update twice on the same objects, arguments unchanged
-    for (cfg, blocks, ups) in rng.sample(ctx._c18_states, min(len(ctx._c18_states), 400)):
+    both = ctx._c18_states + ctx._c18_shape_states
+    for (cfg, blocks, ups) in rng.sample(both, min(len(both), 400)):
         u = rng.choice(ups)
         areqs.append("APPLY %s %s" % (enc_blocks(blocks), enc_update(u)))
         acases.append((blocks, u, "twice"))
@@ -1044,6 +1046,20 @@ def search(ctx):
         for u in ups:
             cur = [list(b) for b in blocks]
             check_step(ctx, cfg, builder, cur, ([*u[0]], [list(b) for b in u[1]]), "generated state")
+    for (cfg, blocks, ups) in getattr(ctx, "_c18_shape_states", []):
+        cur = [list(b) for b in blocks]
+        if inv_failure(cfg, cur) is not None:
+            continue
+        builder = mk_builder(cfg)
+        picks = set(rng.sample(range(len(ups)), min(6, len(ups))))
+        for k, u in enumerate(ups):
+            u = ([*u[0]], [list(b) for b in u[1]])
+            if k in picks:
+                check_step(ctx, cfg, builder, cur, u, "generated shape state")
+            elif not local_ok(cfg, cur, u):
+                lean_step(ctx, cfg, builder, cur, u, "generated shape state")
+            else:
+                ctx.count("prop:update-checked-locally")
     # 3. hardened input classes
     search_shapes(ctx)
     search_big_ints(ctx)
@@ -1069,12 +1085,31 @@ def lean_step(ctx, cfg, builder, cur, u, where):
     return True
 
 
+def local_ok(cfg, blocks, u):
+    """the update, looked at on its own, keeps the invariant: the appended blocks are connected, hold exactly the cells of the
+    excluded blocks, and sizes / block count stay in bounds.  (Independent of copy_with_update; used to thin out the number of
+    full applications -- whenever this says no, the update is applied for real and the result decides.)"""
+    try:
+        ex, app = u
+        idx = set(ex)
+        if len(idx) != len(ex) or any(not (0 <= i < len(blocks)) for i in idx):
+            return False
+        if Counter(c for i in idx for c in blocks[i]) != Counter(c for b in app for c in b):
+            return False
+        mn, mx, ms, xs = own_bounds(cfg)
+        if not (mn <= len(blocks) - len(idx) + len(app) <= mx):
+            return False
+        return all(isinstance(b, list) and ms <= len(b) <= xs and block_connected(b) for b in app)
+    except Exception:  # noqa
+        return False
+
+
 def probe_state(ctx, cfg, blocks, where, calls=1, full=4, fresh=False):
     """every update the real code proposes for this (valid) value must lead to a valid value"""
     if inv_failure(cfg, blocks) is not None:
         return
     rng = ctx.rng
-    builder = mk_builder(fresh_cfg(cfg) if fresh else cfg)
+    builder = mk_builder_form(fresh_cfg(cfg) if fresh else cfg, rng.choice(FORMS))     # class 6: any call form of the constructor
     snap = copy.deepcopy(blocks)
     seen = set()
     for c in range(calls):
@@ -1091,16 +1126,17 @@ def probe_state(ctx, cfg, blocks, where, calls=1, full=4, fresh=False):
                           {"cfg": list(cfg), "value": snap, "after": copy.deepcopy(blocks), "where": where})
             blocks[:] = copy.deepcopy(snap)
         ctx.prop_case("state:" + where.split(":")[0], (cfg, norm_blocks(snap), c))
-        k = 0
-        for u in cands:
+        picks = set(rng.sample(range(len(cands)), min(full, len(cands))))
+        for k, u in enumerate(cands):
             nu = norm_update(u)
             if nu in seen:
                 continue
             seen.add(nu)
             ctx.count("prop:probe-" + kind_of(u))
-            if k < full:
-                k += 1
+            if k in picks:
                 check_step(ctx, cfg, builder, blocks, u, where)
+            elif local_ok(cfg, blocks, u) and rng.random() < 0.9:
+                ctx.count("prop:update-checked-locally")
             else:
                 lean_step(ctx, cfg, builder, blocks, u, where)
 
@@ -1119,7 +1155,7 @@ def search_shapes(ctx):
     #     4x4: every block with a hole + a sample of the others (thorough / deep: all)
     for (h, w) in [(3, 4), (4, 3)]:
         for k, blk in enumerate(SH.connected_subsets(h, w)):
-            if len(blk) == h * w:
+            if len(blk) == h * w or ((h, w) == (4, 3) and not (ctx.thorough or deep) and k % 3 != ctx.seed % 3):
                 continue
             blocks = SH.partition_around(h, w, blk, order=("first", "last")[k % 2])
             cfg = tight_cfgs(h, w, blocks)[k % 2]
@@ -1128,7 +1164,7 @@ def search_shapes(ctx):
     holes = [b for b in c44 if SH.has_hole(4, 4, b)]
     plain = [b for b in c44 if not SH.has_hole(4, 4, b)]
     if not (ctx.thorough or deep):
-        plain = rng.sample(plain, 1200)
+        plain = rng.sample(plain, 500)
     for k, blk in enumerate(holes + plain):
         blocks = SH.partition_around(4, 4, blk, rng, cut=0.3 if k % 3 == 0 else 0.0, order=("first", "last", "shuffle")[k % 3])
         cfg = tight_cfgs(4, 4, blocks)[1 if k % 4 else 0]      # mostly without the (random, expensive) split section
@@ -1137,7 +1173,9 @@ def search_shapes(ctx):
     for (h, w) in TARGET_BOARDS + [(6, 7)]:
         reps = 2 if (ctx.thorough or deep) else 1
         for _ in range(reps):
-            for label, blk in targeted_blocks(rng, h, w):
+            lo, n = min(16, max(2, h * w // 2)), h * w
+            ks = None if (n - lo <= 12 or ctx.thorough or deep) else sorted(rng.sample(range(lo, n), 12))
+            for label, blk in targeted_blocks(rng, h, w, ks=ks):
                 blocks = SH.partition_around(h, w, SH.reorder(rng, blk), rng, cut=rng.choice([0.0, 0.0, 0.5]),
                                              order=rng.choice(["first", "last", "shuffle"]))
                 cfgs = tight_cfgs(h, w, blocks)
@@ -1154,8 +1192,12 @@ def search_big_ints(ctx):
             continue
         builder = mk_builder(fresh_cfg(cfg))
         ctx.prop_case("state:big-ints", (cfg, len(blocks)))
-        for u in (ups if len(ups) <= 60 else rng.sample(ups, 60)):
-            lean_step(ctx, cfg, builder, cur, ([*u[0]], [list(b) for b in u[1]]), "big-ints")
+        for k, u in enumerate(ups):
+            u = ([*u[0]], [list(b) for b in u[1]])
+            if k % 25 == 0 or not local_ok(cfg, cur, u):
+                lean_step(ctx, cfg, builder, cur, u, "big-ints")
+            else:
+                ctx.count("prop:update-checked-locally")
     for (h, w) in [(1, 270), (16, 17), (17, 16), (2, 135)]:
         cells = SH.board(h, w)
         n = len(cells)
@@ -1189,14 +1231,15 @@ def search_big_ints(ctx):
             ctx.violation("1x300:initial:" + why, "initial() returned a value outside the invariant: " + why,
                           {"cfg": list(cfg), "result": cur, "where": "big-ints initial"})
         else:
-            for t in range(5):
+            for t in range(3):
                 br.budget = 10 ** 6
                 with patched(br):
                     cands = builder.candidates(cur)
                 if not cands:
                     break
-                for u in rng.sample(cands, min(8, len(cands))):
-                    lean_step(ctx, cfg, builder, cur, u, "big-ints walk step %d" % t)
+                for k, u in enumerate(cands):
+                    if k % 40 == 0 or not local_ok(cfg, cur, u):
+                        lean_step(ctx, cfg, builder, cur, u, "big-ints walk step %d" % t)
                 new = check_step(ctx, cfg, builder, cur, rng.choice(cands), "big-ints walk step %d" % t)
                 if new is None:
                     break
